@@ -112,3 +112,11 @@ Print Assumptions C06_adjacent_boundary_verdicts_have_a_witness.
 Theorem C06_reached_items_are_embedded : forall root it d, reach it d -> Inv root it -> Inv root d.
 Proof. exact reach_inv. Qed.
 Print Assumptions C06_reached_items_are_embedded.
+
+From WaxProofs Require Import RuleCompleteZom.
+
+(* and for the rule on zero-or-more wildcards *)
+Theorem C06_adjacent_zero_or_more_verdicts_have_a_witness : forall e t sp, parse e = ParseOk t -> rep_free t = true ->
+  check t = Ok (Some (AdjacentZeroOrMore, sp)) -> exists x, Expands t x /\ zchain false x = false.
+Proof. exact parsed_adjacent_zom_is_real. Qed.
+Print Assumptions C06_adjacent_zero_or_more_verdicts_have_a_witness.
